@@ -52,6 +52,18 @@ CHECKS = {
             "the thorough tier (seeded 3 000-cell sample in quick) against a scripted agent; oracle is an independent RFC 3416 "
             "status->exception table, error_status and offending_oid.",
             "deterministic simulation: scripted error-status agent, full matrix enumeration, RFC table oracle"),
+    "C09": ("fault_enumeration", "6 C09",
+            "On-path attacker as a network rewrite fault: for each scenario the exchange is re-run from the identical state "
+            "once per transformation of the targeted authentic response - every single-bit flip (complete enumeration) and 24 "
+            "structural forgeries carrying different data (downgrades, digest variants, wrong keys/users/engines, Reports). "
+            "Outcome must be an exception or exactly the authentic result; Reports only an exception.",
+            "deterministic simulation: exhaustive per-bit and structural rewrite faults on authentic responses, exact twin runs"),
+    "C10": ("exploration", "6 C10",
+            "Seeded sweep of passwords (every length 1..300), engine ids, operations and payload lengths (message / scoped-PDU / "
+            "PDU content lengths through 100..300, measured per layer) against an independent RFC 3412/3414 agent whose verdict "
+            "on every request (flags, parameters, digest over the datagram as sent, decryption, usmStats) and whose authentic "
+            "minimal-BER responses are the oracle.",
+            "deterministic simulation: independent USM agent verdicts over seeded password/engine/length sweeps"),
 }
 
 NOT_APPLICABLE = {
